@@ -269,15 +269,73 @@ def csdW (n : Nat) (w s : Nat → α) (k : Nat) : Cx α :=
   let mu := meanTo n w
   csd n (applyWindow mu w s) k
 
+/-- `n = (s.shape[-1] // waveform_averages) * waveform_averages`: the samples `util.psd` keeps
+(`trim_samples=True`, `s = s[..., :n]`) of a signal of `N` samples. -/
+def trimLen (N avg : Nat) : Nat := (N / avg) * avg
+
 /-- `util.psd(s, fs, waveform_averages=avg, trim_samples=True, detrend=None)[k]` for a signal of
-length `N`: segments of `m = N // avg` samples, mean of the magnitudes. -/
+**raw** length `N` (trailing samples included): trim to `trimLen N avg`, `reshape(avg, -1)` into rows of
+`m = trimLen N avg / avg` samples, `csd` of each row, mean of the magnitudes. -/
 def psd (N avg : Nat) (s : Nat → α) (k : Nat) : α :=
-  let m := N / avg
+  let m := trimLen N avg / avg
   meanTo avg fun r => (csd m (fun j => s (r * m + j)) k).abs
 
+/-- the same with a window: `csd` sees rows of `m` samples, so `w = get_window(window, m)` -/
 def psdW (N avg : Nat) (w s : Nat → α) (k : Nat) : α :=
-  let m := N / avg
+  let m := trimLen N avg / avg
   meanTo avg fun r => (csdW m w (fun j => s (r * m + j)) k).abs
+
+/-! ### SciPy's cosine-sum windows, periodic form (`get_window(name, n)` has `fftbins=True`, i.e. `sym=False`)
+
+`scipy.signal.windows._general_cosine_impl(n, a, sym=False)`: `fac = linspace(-pi, pi, n + 1)` (the extra
+sample is truncated), `w = 0; for k in range(len(a)): w += a[k]*cos(k*fac)`.  `np.linspace` computes
+`arange(num)*step + start` with `step = (stop - start)/n`.  (Lengths `n ≤ 1` return `ones(n)`: not modelled.) -/
+
+/-- `np.linspace(-np.pi, np.pi, n + 1)[j]`, `j < n` -/
+def cosFac (n j : Nat) : α := nat j * ((pi - (-pi)) / nat n) + (-pi)
+
+/-- sample `j` of the periodic cosine-sum window of length `n` with coefficients `a 0 … a (terms-1)` -/
+def cosWin (a : Nat → α) (terms n : Nat) : Nat → α :=
+  fun j => sumTo terms fun m => a m * cos (nat m * cosFac n j)
+
+/-- `general_hamming(n, alpha)`: `a = [alpha, 1. - alpha]` -/
+def genHammingCoef (alpha : α) : Nat → α
+  | 0 => alpha
+  | 1 => nat 1 - alpha
+  | _ => nat 0
+
+/-- the cosine-sum windows of `scipy.signal.get_window` exercised for `util.csd` / `util.psd` -/
+inductive CosWindow
+  | hann | hamming | blackman | flattop
+  deriving Repr, DecidableEq
+
+/-- number of coefficients (`len(a)`) -/
+def CosWindow.terms : CosWindow → Nat
+  | .hann => 2
+  | .hamming => 2
+  | .blackman => 3
+  | .flattop => 5
+
+/-- SciPy's coefficient tables: `hann = general_hamming(0.5)`, `hamming = general_hamming(0.54)`,
+`blackman = [0.42, 0.50, 0.08]`, `flattop = [0.21557895, 0.41663158, 0.277263158, 0.083578947, 0.006947368]` -/
+def CosWindow.coef : CosWindow → Nat → α
+  | .hann => genHammingCoef (nat 5 / nat 10)
+  | .hamming => genHammingCoef (nat 54 / nat 100)
+  | .blackman => fun
+    | 0 => nat 42 / nat 100
+    | 1 => nat 50 / nat 100
+    | 2 => nat 8 / nat 100
+    | _ => nat 0
+  | .flattop => fun
+    | 0 => nat 21557895 / nat 100000000
+    | 1 => nat 41663158 / nat 100000000
+    | 2 => nat 277263158 / nat 1000000000
+    | 3 => nat 83578947 / nat 1000000000
+    | 4 => nat 6947368 / nat 1000000000
+    | _ => nat 0
+
+/-- `scipy.signal.get_window(name, n)` for the four cosine-sum windows -/
+def CosWindow.window (w : CosWindow) (n : Nat) : Nat → α := cosWin w.coef w.terms n
 
 /-- `util.phase(s, fs, unwrap=False)[k]` (`phase` calls `csd` with `detrend=None`) -/
 def phaseBin (n : Nat) (s : Nat → α) (k : Nat) : α := (csd n s k).arg
